@@ -2049,34 +2049,59 @@ theorem pattr_rest (i : Ident) (tail : Bytes) (hi : identOK i) : ∀ k ∈ kPara
     rw [hh]
     simp [TyParse.stripPrefix, this.2]
 
-theorem readParams_print : ∀ (ps : List ((Ty × Ident) × List Nat)), ps ≠ [] → (∀ p ∈ ps, pattrOK p) → ∀ (R : Bytes) f, ps.length ≤ f →
-    readParams f (paramsString ps ++ 41 :: R) = some (ps, 41 :: R)
-  | [], h, _, _, _, _ => absurd rfl h
-  | [((t, i), a)], _, hp, R, f, hf => by
+/-- what may follow the parameters: the closing parenthesis, or the marker of a variadic function and the closing parenthesis -/
+def paramsEnd (F R : Bytes) : Prop := F = 41 :: R ∨ F = sCommaDots ++ 41 :: R
+
+theorem paramsEnd_identEnd (F R : Bytes) (h : paramsEnd F R) : identEnd F = true := by
+  rcases h with rfl | rfl <;> simp [sCommaDots, identEnd, inTail, inHead, isAlpha, isUpper, isLower, isDigit]
+
+theorem tyString_not_dots (t : Ty) (rest : Bytes) : ((tyString t ++ rest).take 3 == sDots) = false := by
+  obtain ⟨c, r, h, hc⟩ := TyParse.tyString_head t
+  have h46 : c ≠ 46 := by
+    intro e; subst e; simp [TyParse.tyStart] at hc
+  rw [h]
+  simp only [List.cons_append, sDots]
+  cases hr : (r ++ rest) with
+  | nil => simp [List.take]
+  | cons x xs =>
+    simp only [List.take, beq_eq_false_iff_ne, ne_eq, List.cons.injEq, not_and]
+    intro e; exact absurd e h46
+
+theorem readParams_print : ∀ (ps : List ((Ty × Ident) × List Nat)), ps ≠ [] → (∀ p ∈ ps, pattrOK p) → ∀ (F R : Bytes) f, paramsEnd F R → ps.length ≤ f →
+    readParams f (paramsString ps ++ F) = some (ps, F)
+  | [], h, _, _, _, _, _, _ => absurd rfl h
+  | [((t, i), a)], _, hp, F, R, f, hF, hf => by
     obtain ⟨f', rfl⟩ : ∃ f', f = f' + 1 := ⟨f - 1, by simp at hf; omega⟩
     obtain ⟨hi, ha⟩ := hp ((t, i), a) (by simp)
-    have e : paramsString [((t, i), a)] ++ 41 :: R = tyString t ++ 32 :: (flagsString kParamAttr a ++ (identString i ++ 41 :: R)) := by simp [paramsString]
-    rw [e, readParams, param_ty_step t a i (41 :: R) ha hi]
-    have hfl := readFlags_print kParamAttr (identString i ++ 41 :: R) kParamAttr_diverge (pattr_rest i (41 :: R) hi) a
-      ((flagsString kParamAttr a ++ (identString i ++ 41 :: R)).length + 1) ha (by
+    have e : paramsString [((t, i), a)] ++ F = tyString t ++ 32 :: (flagsString kParamAttr a ++ (identString i ++ F)) := by simp [paramsString]
+    rw [e, readParams, param_ty_step t a i F ha hi]
+    have hfl := readFlags_print kParamAttr (identString i ++ F) kParamAttr_diverge (pattr_rest i F hi) a
+      ((flagsString kParamAttr a ++ (identString i ++ F)).length + 1) ha (by
         have := flagsString_len kParamAttr a; simp only [List.length_append]; omega)
-    simp only [hfl, readIdent_identString i (41 :: R) hi (by simp [identEnd, inTail, inHead, isAlpha, isUpper, isLower, isDigit])]
-    rfl
-  | ((t, i), a) :: q :: ps, _, hp, R, f, hf => by
+    simp only [hfl, readIdent_identString i F hi (paramsEnd_identEnd F R hF)]
+    rcases hF with rfl | rfl
+    · rfl
+    · simp [sCommaDots, sDots]
+  | ((t, i), a) :: q :: ps, _, hp, F, R, f, hF, hf => by
     obtain ⟨f', rfl⟩ : ∃ f', f = f' + 1 := ⟨f - 1, by simp at hf; omega⟩
     obtain ⟨hi, ha⟩ := hp ((t, i), a) (by simp)
-    have e : paramsString (((t, i), a) :: q :: ps) ++ 41 :: R
-        = tyString t ++ 32 :: (flagsString kParamAttr a ++ (identString i ++ (sComma ++ (paramsString (q :: ps) ++ 41 :: R)))) := by
+    have e : paramsString (((t, i), a) :: q :: ps) ++ F
+        = tyString t ++ 32 :: (flagsString kParamAttr a ++ (identString i ++ (sComma ++ (paramsString (q :: ps) ++ F)))) := by
       simp [paramsString]
-    have ih := readParams_print (q :: ps) (by simp) (fun x hx => hp x (by simp [hx])) R f' (by simp at hf ⊢; omega)
+    have ih := readParams_print (q :: ps) (by simp) (fun x hx => hp x (by simp [hx])) F R f' hF (by simp at hf ⊢; omega)
     rw [e, readParams, param_ty_step t a i _ ha hi]
-    have hfl := readFlags_print kParamAttr (identString i ++ (sComma ++ (paramsString (q :: ps) ++ 41 :: R))) kParamAttr_diverge (pattr_rest i _ hi) a
-      ((flagsString kParamAttr a ++ (identString i ++ (sComma ++ (paramsString (q :: ps) ++ 41 :: R)))).length + 1) ha (by
+    have hfl := readFlags_print kParamAttr (identString i ++ (sComma ++ (paramsString (q :: ps) ++ F))) kParamAttr_diverge (pattr_rest i _ hi) a
+      ((flagsString kParamAttr a ++ (identString i ++ (sComma ++ (paramsString (q :: ps) ++ F)))).length + 1) ha (by
         have := flagsString_len kParamAttr a; simp only [List.length_append]; omega)
-    have hri := readIdent_identString i (sComma ++ (paramsString (q :: ps) ++ 41 :: R)) hi
+    have hri := readIdent_identString i (sComma ++ (paramsString (q :: ps) ++ F)) hi
       (by simp [sComma, identEnd, inTail, inHead, isAlpha, isUpper, isLower, isDigit])
+    have hnd : ((paramsString (q :: ps) ++ F).take 3 == sDots) = false := by
+      obtain ⟨⟨tq, iq⟩, aq⟩ := q
+      cases ps with
+      | nil => simp only [paramsString, List.append_assoc]; exact tyString_not_dots tq _
+      | cons q' ps' => simp only [paramsString, List.append_assoc]; exact tyString_not_dots tq _
     simp only [hfl, hri]
-    simp [sComma, ih]
+    simp only [sComma, List.cons_append, List.nil_append, hnd, Bool.false_eq_true, if_false, ih]
 
 theorem paramsString_len : ∀ (ps : List ((Ty × Ident) × List Nat)), ps.length ≤ (paramsString ps).length
   | [] => by simp
@@ -2383,39 +2408,82 @@ theorem readHeaderRest_print (f : Func) (hn : f.name ≠ []) (hp : ∀ p ∈ zip
         | some (tok, 40 :: r2) =>
           (match Enc.decodeIdentBody tok with
            | .name n =>
-             if r2.head? == some 41 then (match readTail r2 with | some tl => some (lead, rt, n, [], tl) | none => none)
-             else (match readParams (r2.length + 1) r2 with
-                   | some (ps, r3) => (match readTail r3 with | some tl => some (lead, rt, n, ps, tl) | none => none)
-                   | none => none)
+             if r2.head? == some 41 then (match readTail r2 with | some tl => some (lead, rt, n, [], false, tl) | none => none)
+             else match TyParse.stripPrefix sDots r2 with
+             | some r3 => (match readTail r3 with | some tl => some (lead, rt, n, [], true, tl) | none => none)
+             | none =>
+               (match readParams (r2.length + 1) r2 with
+                | some (ps, r3) =>
+                  (match TyParse.stripPrefix sCommaDots r3 with
+                   | some r4 => (match readTail r4 with | some tl => some (lead, rt, n, ps, true, tl) | none => none)
+                   | none => (match readTail r3 with | some tl => some (lead, rt, n, ps, false, tl) | none => none))
+                | none => none)
            | .id _ => none)
         | _ => none)
-     | _ => none) = some (lead, f.ret, f.name, zipA f.params f.pattrs, f.tail) := by
+     | _ => none) = some (lead, f.ret, f.name, zipA f.params f.pattrs, f.variadic, f.tail) := by
   unfold headerRest
   simp only [List.append_assoc, globalName_eq, List.cons_append, List.singleton_append, List.nil_append]
   generalize hR : 41 :: 32 :: (itemsString (itemsOf f.tail) ++ [123]) = R
   have hrt : readTail R = some f.tail := by rw [← hR]; exact readTail_print f.tail ht
-  have hty : TyParse.parseTy (tyFuel (tyString f.ret ++ 32 :: 64 :: (nameBody f.name ++ 40 :: (paramsString (zipA f.params f.pattrs) ++ R))))
-      (tyString f.ret ++ 32 :: 64 :: (nameBody f.name ++ 40 :: (paramsString (zipA f.params f.pattrs) ++ R)))
-      = some (f.ret, 32 :: 64 :: (nameBody f.name ++ 40 :: (paramsString (zipA f.params f.pattrs) ++ R))) := by
+  generalize hV : varString f.params.isEmpty f.variadic ++ R = VR
+  have hty : TyParse.parseTy (tyFuel (tyString f.ret ++ 32 :: 64 :: (nameBody f.name ++ 40 :: (paramsString (zipA f.params f.pattrs) ++ VR))))
+      (tyString f.ret ++ 32 :: 64 :: (nameBody f.name ++ 40 :: (paramsString (zipA f.params f.pattrs) ++ VR)))
+      = some (f.ret, 32 :: 64 :: (nameBody f.name ++ 40 :: (paramsString (zipA f.params f.pattrs) ++ VR))) := by
     apply TyParse.parseTy_tyString_gen
     · simp [TyParse.cont]
     · simp [TyParse.stopG]
     · have := TyParse.w_le_len f.ret
       unfold tyFuel; simp only [List.length_append]; omega
   rw [hty]
-  have htb := takeBody_nameBody f.name (40 :: (paramsString (zipA f.params f.pattrs) ++ R)) hn (by simp [identEnd, inTail, inHead, isAlpha, isUpper, isLower, isDigit])
+  have htb := takeBody_nameBody f.name (40 :: (paramsString (zipA f.params f.pattrs) ++ VR)) hn (by simp [identEnd, inTail, inHead, isAlpha, isUpper, isLower, isDigit])
   simp only [htb, decode_nameBody f.name hn]
   cases hps : zipA f.params f.pattrs with
-  | nil => subst hR; simp only [paramsString, List.nil_append, List.head?_cons, beq_self_eq_true, if_true, hrt]
+  | nil =>
+    have hemp : f.params.isEmpty = true := by
+      have := (zipA_nil_iff f.params f.pattrs).mp hps; simp [this]
+    rw [hemp] at hV
+    cases hv : f.variadic with
+    | false =>
+      rw [hv] at hV; simp only [varString, Bool.false_eq_true, if_false, List.nil_append] at hV
+      subst hV; subst hR
+      simp only [paramsString, List.nil_append, List.head?_cons, beq_self_eq_true, if_true, hrt]
+    | true =>
+      rw [hv] at hV; simp only [varString, if_true] at hV
+      subst hV
+      have hd : ((sDots ++ R).head? == some 41) = false := by simp [sDots]
+      simp only [paramsString, List.nil_append, hd, Bool.false_eq_true, if_false, TyParse.stripPrefix_append, hrt]
   | cons p ps =>
+    have hne : f.params.isEmpty = false := by
+      cases hpp : f.params with
+      | nil => rw [hpp] at hps; simp [zipA] at hps
+      | cons _ _ => rfl
+    rw [hne] at hV
     obtain ⟨c, rest, hh, h41⟩ := paramsString_head p ps
-    have hd : ((paramsString (p :: ps) ++ R).head? == some 41) = false := by rw [hh]; simp [h41]
-    have hr := readParams_print (p :: ps) (by simp) (by rw [← hps]; exact hp) (32 :: (itemsString (itemsOf f.tail) ++ [123])) ((paramsString (p :: ps) ++ R).length + 1) (by
-      have := paramsString_len (p :: ps); simp only [List.length_append] at this ⊢; omega)
-    rw [hR] at hr
-    simp only [hd, Bool.false_eq_true, if_false, hr, hrt]
+    have hd : ((paramsString (p :: ps) ++ VR).head? == some 41) = false := by rw [hh]; simp [h41]
+    have hnd : TyParse.stripPrefix sDots (paramsString (p :: ps) ++ VR) = none := by
+      obtain ⟨⟨tq, iq⟩, aq⟩ := p
+      obtain ⟨c', r', h', hc'⟩ := TyParse.tyString_head tq
+      have h46 : c' ≠ 46 := by intro e; subst e; simp [TyParse.tyStart] at hc'
+      cases ps with
+      | nil => simp only [paramsString, List.append_assoc, h', List.cons_append, sDots, TyParse.stripPrefix]; simp [Ne.symm h46]
+      | cons q' ps' => simp only [paramsString, List.append_assoc, h', List.cons_append, sDots, TyParse.stripPrefix]; simp [Ne.symm h46]
+    cases hv : f.variadic with
+    | false =>
+      rw [hv] at hV; simp only [varString, Bool.false_eq_true, if_false, List.nil_append] at hV
+      subst hV
+      have hr := readParams_print (p :: ps) (by simp) (by rw [← hps]; exact hp) R (32 :: (itemsString (itemsOf f.tail) ++ [123])) ((paramsString (p :: ps) ++ R).length + 1)
+        (Or.inl hR.symm) (by have := paramsString_len (p :: ps); simp only [List.length_append] at this ⊢; omega)
+      have hnc : TyParse.stripPrefix sCommaDots R = none := by rw [← hR]; simp [sCommaDots, TyParse.stripPrefix]
+      simp only [hd, Bool.false_eq_true, if_false, hnd, hr, hnc, hrt]
+    | true =>
+      rw [hv] at hV; simp only [varString, if_true, Bool.false_eq_true, if_false] at hV
+      subst hV
+      have hr := readParams_print (p :: ps) (by simp) (by rw [← hps]; exact hp) (sCommaDots ++ R) (32 :: (itemsString (itemsOf f.tail) ++ [123]))
+        ((paramsString (p :: ps) ++ (sCommaDots ++ R)).length + 1)
+        (Or.inr (by rw [hR])) (by have := paramsString_len (p :: ps); simp only [List.length_append] at this ⊢; omega)
+      simp only [hd, Bool.false_eq_true, if_false, hnd, hr, TyParse.stripPrefix_append, hrt]
 
-theorem readHeader_print (f : Func) (h : headerOK f) : readHeader (headerString f) = some (f.lead, f.ret, f.name, zipA f.params f.pattrs, f.tail) := by
+theorem readHeader_print (f : Func) (h : headerOK f) : readHeader (headerString f) = some (f.lead, f.ret, f.name, zipA f.params f.pattrs, f.variadic, f.tail) := by
   obtain ⟨hn, hp, hl, hrest, ht⟩ := h
   unfold headerString readHeader
   simp only [List.append_assoc, TyParse.stripPrefix_append]
